@@ -20,10 +20,11 @@ KINDS = {1: "contiguous", 2: "vector", 3: "hvector", 4: "indexed", 5: "hindexed"
 
 
 class Ty:
-    __slots__ = ("id", "kind", "args", "kids", "segs", "size", "lb", "ub", "explicit", "align", "depth", "feat")
+    __slots__ = ("id", "kind", "args", "kids", "segs", "size", "lb", "ub", "explicit", "align", "depth", "feat", "ambiguous")
 
     def __init__(self):
         self.feat = set()
+        self.ambiguous = False
 
     @property
     def extent(self):
@@ -86,8 +87,16 @@ def _place(t, copies, explicit_bounds=None):
         t.explicit = True
     elif copies:
         t.lb, t.ub = min(lbs), max(ubs)
+        # MPI's bound markers are "sticky" (MPI-3.1 4.1.6: when some entry of the type map is a marker, only the markers define the
+        # bound); MPICH dropped that rule with MPI_LB/MPI_UB. The two readings differ only when copies with explicit bounds
+        # (resized/subarray) are mixed with copies without: such a type is flagged and never generated (not judged).
+        ex = [i for i, (_, c) in enumerate(copies) if c.explicit]
+        if ex and (min(lbs[i] for i in ex), max(ubs[i] for i in ex)) != (t.lb, t.ub):
+            t.ambiguous = True
     else:
         t.lb = t.ub = 0
+    if any(c.ambiguous for _, c in copies):
+        t.ambiguous = True
     return t
 
 
@@ -189,7 +198,7 @@ class Gen:
                 continue
             if t.segs and min(o for o, _ in t.segs) < 0:
                 continue
-            if overlapping(t, 1, 0):
+            if overlapping(t, 1, 0) or t.ambiguous:
                 continue
             if not root:
                 if t.ext1 != t.extent or t.extent <= 0 or t.size == 0:
@@ -345,3 +354,41 @@ def describe(t):
     if t.kind == 0:
         return t.name
     return "%s(%s; %s)" % (t.name, ",".join(map(str, t.args)), ",".join(describe(k) for k in t.kids))
+
+
+NAME2KIND = {v: k for k, v in KINDS.items()}
+NAME2BASIC = {v[0]: k for k, v in BASIC.items()}
+
+
+def parse(text, first_id=0):
+    """Inverse of describe(): 'indexed(2,1,1,1,3; MPI_INT)' -> (root Ty, next free id). Components get their ids first."""
+    txt = text.replace(" ", "")
+    pos = [0, first_id]
+
+    def rec():
+        j = pos[0]
+        while pos[0] < len(txt) and (txt[pos[0]].isalnum() or txt[pos[0]] == "_"):
+            pos[0] += 1
+        name = txt[j:pos[0]]
+        if name in NAME2BASIC:
+            return basic(NAME2BASIC[name])
+        if name not in NAME2KIND or txt[pos[0]] != "(":
+            raise ValueError("bad datatype description at %d: %s" % (j, text))
+        pos[0] += 1
+        j = pos[0]
+        while txt[pos[0]] != ";":
+            pos[0] += 1
+        args = [int(x) for x in txt[j:pos[0]].split(",")]
+        pos[0] += 1
+        kids = [rec()]
+        while txt[pos[0]] == ",":
+            pos[0] += 1
+            kids.append(rec())
+        if txt[pos[0]] != ")":
+            raise ValueError("bad datatype description at %d: %s" % (pos[0], text))
+        pos[0] += 1
+        t = build(pos[1], NAME2KIND[name], args, kids)
+        pos[1] += 1
+        return t
+    r = rec()
+    return r, pos[1]
